@@ -2,11 +2,17 @@ package ast
 
 import (
 	"strconv"
+	"sync"
 )
 
 var capture_group_number int = 0
 
+// capture_group_number is shared by every parse: one parse at a time
+var parse_mutex sync.Mutex
+
 func parse(tokens []*Token) ([]AstCommand, error) {
+	parse_mutex.Lock()
+	defer parse_mutex.Unlock()
 	commands := []AstCommand{}
 	capture_group_number = 0
 	token_index := 0
